@@ -34,6 +34,7 @@ pub const SPEC: PropSpec = PropSpec {
 pub struct Local {
     runs: std::collections::BTreeMap<&'static str, u64>,
     accessor_calls: u64,
+    grown_after_eof: u64,
     attr_items: u64,
     attr_errors: u64,
     syntax_then_eof: u64,
@@ -316,6 +317,9 @@ pub enum Mode {
     NsSliceSkips,
     ReaderSlice,
     ReaderBuffered,
+    /// buffered source that reports end of input, and delivers more bytes once Eof (or a syntax
+    /// error) has been returned: the reader must not go back to it
+    ReaderBufferedGrowing,
     ReaderAsync,
     NsSlice,
     NsBuffered,
@@ -329,6 +333,7 @@ impl Mode {
             Mode::NsSliceSkips => "nsreader.slice_with_skips",
             Mode::ReaderSlice => "reader.slice",
             Mode::ReaderBuffered => "reader.buffered",
+            Mode::ReaderBufferedGrowing => "reader.buffered_source_grows_after_eof",
             Mode::ReaderAsync => "reader.async",
             Mode::NsSlice => "nsreader.slice",
             Mode::NsBuffered => "nsreader.buffered",
@@ -341,6 +346,7 @@ impl Mode {
             "reader.slice_with_skips" => Mode::ReaderSliceSkips,
             "nsreader.slice_with_skips" => Mode::NsSliceSkips,
             "reader.buffered" => Mode::ReaderBuffered,
+            "reader.buffered_source_grows_after_eof" => Mode::ReaderBufferedGrowing,
             "reader.async" => Mode::ReaderAsync,
             "nsreader.slice" => Mode::NsSlice,
             "nsreader.buffered" => Mode::NsBuffered,
@@ -533,6 +539,34 @@ pub fn drive(input: &[u8], cfg: u8, mode: Mode, cuts: &[usize], pending: &[u8], 
                 },
                 false
             );
+        }
+        Mode::ReaderBufferedGrowing => {
+            let mut data = input.to_vec();
+            data.extend_from_slice(b"<more k='v'>late</more> tail");
+            let mut src = ChunkedRead::new(&data, cuts.to_vec());
+            src.hold_at = Some(len);
+            let mut r = Reader::from_reader(src);
+            apply_cfg(r.config_mut(), cfg);
+            let mut buf = Vec::new();
+            let mut released = false;
+            for _ in 0..limit {
+                buf.clear();
+                let res = match guarded(|| r.read_event_into(&mut buf).map(|e| e.into_owned())) {
+                    Ok(r) => r,
+                    Err(p) => return Err(format!("read call {}: {}", inv.calls, p)),
+                };
+                let obs = result_obs(&res);
+                drop(res);
+                let stop = inv.step(&obs, r.buffer_position(), r.error_position(), loc).map_err(|e| if released { format!("{} (the source delivered more bytes after the reader had returned Eof / a syntax error)", e) } else { e })?;
+                if inv.terminal && !released {
+                    r.get_mut().release();
+                    released = true;
+                    loc.grown_after_eof += 1;
+                }
+                if stop {
+                    break;
+                }
+            }
         }
         Mode::ReaderAsync | Mode::ReaderAsyncStream => {
             let with_stream = mode == Mode::ReaderAsyncStream;
@@ -746,8 +780,8 @@ fn one_input(ctx: &mut Ctx, loc: &mut Local, input: &[u8], r: &mut Rng, heavy: b
     let pick = r.below(if heavy { 2 } else { 16 });
     if pick == 0 && input.len() > 1 {
         let c1 = cuts_for_piece(input.len(), 1, 0);
-        let modes = [Mode::ReaderBuffered, Mode::NsBuffered, Mode::ReaderAsync, Mode::NsAsync, Mode::ReaderAsyncStream];
-        let m = modes[r.below(5)];
+        let modes = [Mode::ReaderBuffered, Mode::NsBuffered, Mode::ReaderAsync, Mode::NsAsync, Mode::ReaderAsyncStream, Mode::ReaderBufferedGrowing];
+        let m = modes[r.below(6)];
         let mut cuts = c1;
         if r.bool() {
             cuts = Vec::new();
@@ -833,10 +867,29 @@ fn run(ctx: &mut Ctx) {
             random_bytes: t.pick(4_000_000, 40_000_000),
             random_len: 64,
             random_atoms: t.pick(1_000_000, 8_000_000),
+            scale_max: 8192,
             ..Plan::default()
         }
     };
-    for_each_input(ctx, &plan, &mut |ctx, input, src, r| one_input(ctx, &mut loc, input, r, !src.exhaustive()));
+    for_each_input(ctx, &plan, &mut |ctx, input, src, r| {
+        if src == Src::Scale {
+            // every mode, with long pieces
+            for m in [Mode::ReaderSlice, Mode::NsSlice, Mode::ReaderSliceSkips, Mode::NsSliceSkips] {
+                if !run_case(ctx, &mut loc, input, (r.next() & 0x7F) as u8, m, &[], &[]) {
+                    return false;
+                }
+            }
+            for m in [Mode::ReaderBuffered, Mode::NsBuffered, Mode::ReaderAsync, Mode::NsAsync, Mode::ReaderBufferedGrowing] {
+                let piece = crate::gen::SCALE_PIECES[r.below(crate::gen::SCALE_PIECES.len())];
+                let cuts = if r.bool() { cuts_for_piece(input.len(), piece, 0) } else { crate::sources::big_random_cuts(r, input.len(), 0) };
+                if !run_case(ctx, &mut loc, input, (r.next() & 0x7F) as u8, m, &cuts, &[0, 1, 0, 2]) {
+                    return false;
+                }
+            }
+            return true;
+        }
+        one_input(ctx, &mut loc, input, r, !src.exhaustive())
+    });
     flush(ctx, &loc);
 }
 
@@ -845,6 +898,7 @@ fn flush(ctx: &mut Ctx, loc: &Local) {
         ctx.add(k, *v);
     }
     ctx.add("accessor_calls", loc.accessor_calls);
+    ctx.add("sources_that_grew_after_eof", loc.grown_after_eof);
     ctx.add("attr_items", loc.attr_items);
     ctx.add("attr_errors", loc.attr_errors);
     ctx.add("events_exercised", loc.events);
